@@ -10,6 +10,45 @@ GUARD = 'KOPF_VERIF_TRACE'
 
 # property id -> (technique, level text, level note, design ref)
 CHECKS: dict[str, dict[str, str]] = {
+    'C15': dict(
+        technique='TLA+ reference of handler selection (Filters.tla, an executable reading of docs/filters.rst) checked by TLC over the '
+                  'declaration x state space; real decorators/registries run on the same space, records judged by TLC; closed-loop stealth traces',
+        text='Every declaration of the criteria alphabet (9 handler kinds x label criteria incl. two keys x field/value criteria x old/new x '
+             'when) is registered through the real kopf.on.* decorators; every object/old/new state becomes a real cause; the real registry\'s '
+             'selection is compared with Filters!Matches for each pair by TLC (bounded-exhaustive, 50-200k pairs). De-duplication by (fn, id) '
+             'and the stealth guarantee (closed loop, Trace_Handling: Stealth) are part of the check. Families F10, F11 are TLA+ predicates.',
+        note='@kopf.on.field with non-update causes is outside the judged space (docs ambiguous); selectors and annotation criteria share '
+             'the code path of label criteria and are sampled, not enumerated',
+        ref='DESIGN.md 4/C15'),
+    'C16': dict(
+        technique='TLA+ specification of annotation-name validity and key shape over code-point sequences (Keys.tla) checked by TLC; real '
+                  'key forming and storages run on bounded-exhaustive/boundary/hypothesis ids, records judged by TLC',
+        text='ValidKey (Kubernetes name syntax), the V2/V1 key shape (safe characters, 63-character cut, hash suffix), stability across '
+             'interpreter processes with different hash seeds, distinctness of long ids with a common prefix, and store/fetch/purge round '
+             'trips with isolation of neighbours, other prefixes and user data, through 5 storage configurations; every record is judged by '
+             'Keys!ClassifyC16 in TLC. Family F7 is a TLA+ predicate.',
+        note='the hash suffix is opaque to the specification (shape only); distinctness is observed on sampled pairs, not proved',
+        ref='DESIGN.md 4/C16'),
+    'C18': dict(
+        technique='TLA+ reference of the admission response (Admission.tla over JV.tla: RFC 7386 merge, RFC 6902 application incl. move/copy); '
+                  'the real serve_admission_request run on systematic combinations, records judged by TLC',
+        text='allowed iff no selected handler raised; message/code from the most specific error; warnings in order; exactly the selected '
+             'handlers ran (webhook id, operation, subresource, mutating-on-DELETE opt-in); the returned JSON patch applied to the reviewed '
+             'object equals the transformations applied to the RFC 7386 merge of the instructions, up to empty mappings - decided by TLC for '
+             'every record of the real code. Families F12, F13, F24 are TLA+ predicates.',
+        note='pointers are tokenised by an independent RFC 6901 decoder; filters on labels/annotations/fields are covered by C15',
+        ref='DESIGN.md 4/C18'),
+    'C04': dict(
+        technique='TLA+ reference semantics of essence and diff (Essence.tla over JV.tla); TLC checks the diff laws on the reference for all '
+                  'pairs of small bodies; records of the real essence/diff functions are judged by TLC (ClassifyC04)',
+        text='DiffSound / DiffComplete / ReduceExact hold on the reference for 810 900 (quick) or 9.8 million (thorough) pairs of bodies. '
+             'The real diffbase.build + progress.clear, storages\' store/purge/touch, finalizer edits, diffs.diff and diffs.reduce are run on '
+             'bounded-exhaustive bodies x 4 storage configurations (x extra fields) and on hypothesis-generated documents; TLC decides for '
+             'every record: own / foreign-Kopf writes invisible, other edits visible, essence equal to the reference Essence, diffs equal to '
+             'the reference, sound and complete. Known families F4, F19, F23 are recognised by TLA+ predicates only.',
+        note='annotation keys are split lexically (prefix/name) for the specification; closed-loop self-triggering is covered by C03 (no '
+             'writes at quiescence); JSON numbers are small integers',
+        ref='DESIGN.md 4/C04'),
     'C02': dict(
         technique='explicit TLA+ model of the closed loop of one object (Handling.tla) checked exhaustively with TLC; traces of the real '
                   'kopf.operator() in the world simulator validated by TLC against the specification (Trace_Handling.tla)',
